@@ -248,7 +248,8 @@ def build_harness(name, extra_flags=(), sanitize=True):
         if os.path.exists(binp):
             return binp, ""
         os.makedirs(outdir, exist_ok=True)
-        for old in glob.glob(os.path.join(outdir, "*")):
+        # keep the three most recent binaries: another check (another tree through VERIF_REPO) may be running one of them
+        for old in sorted(glob.glob(os.path.join(outdir, "*")), key=os.path.getmtime)[:-3]:
             try:
                 os.remove(old)
             except OSError:
